@@ -13,9 +13,11 @@ for p in sorted(glob.glob(os.path.join(here, "seeded", "*", "meta.json"))):
         if not c:
             return "-"
         return {0: "missed", 1: "CAUGHT", 2: "inconclusive", 3: "harness error"}.get(c["exit"], str(c["exit"])) + f" ({c['wall_s']} s)"
-    caught_by = m.get("caught_by", "")
-    rows.append(f"| {m['property']}-{m['variant']} | {first[:150]} | {verdict('quick')} | {verdict('thorough')} | {caught_by} |")
-table = ["", "<!-- seeded-table-begin -->", "| Seed | What it is (first line of the author's notes) | quick | thorough | also caught by |", "|---|---|---|---|---|"] + rows + ["<!-- seeded-table-end -->", ""]
+    caught_by = m.get("caught_by", "") or m.get("note", "")[:90]
+    fs = m.get("first_shot_quick")
+    fsv = "-" if not fs else {0: "missed", 1: "caught", 2: "inconclusive", 3: "harness error", 143: "hung"}.get(fs["exit"], str(fs["exit"]))
+    rows.append(f"| {m['property']}-{m['variant']} | {first[:150]} | {fsv} | {verdict('quick')} | {verdict('thorough')} | {caught_by} |")
+table = ["", "<!-- seeded-table-begin -->", "| Seed | What it is (first line of the author's notes) | first shot (quick) | quick now | thorough | note |", "|---|---|---|---|---|---|"] + rows + ["<!-- seeded-table-end -->", ""]
 path = os.path.join(here, "DESIGN.md")
 s = open(path).read()
 s = re.sub(r"\n<!-- seeded-table-begin -->.*<!-- seeded-table-end -->\n", "", s, flags=re.S)
